@@ -200,7 +200,7 @@ def run_lean(script_path, go_path, timeout=900):
     for line in r.stdout.splitlines():
         m = MIS.match(line)
         if m:
-            mism.append({"line": int(m.group(1)), "cmd": m.group(2), "expected": m.group(3)[:400], "got": m.group(4)[:400]})
+            mism.append({"line": int(m.group(1)), "cmd": m.group(2), "expected": m.group(3), "got": m.group(4)})
     return mism, r.stdout[-500:]
 
 
@@ -444,7 +444,7 @@ def check_property(pid, tier, seed, replay_only=None):
             h = hashlib.sha256("\n".join(script).encode()).hexdigest()[:10]
             rp = os.path.join(ROOT, "replays", "%s-%s.json" % (pid, h))
             json.dump({"property": pid, "seed": sd, "tier": tier, "suite": suite, "script": script,
-                       "failing_command": rec["cmd"], "model_expected": rec["expected"], "go_output": rec["got"],
+                       "failing_command": rec["cmd"], "model_expected": rec["expected"][:3000], "go_output": rec["got"][:3000],
                        "signature": sig, "crash": out["crash"],
                        "how_to_replay": "python3 tools/run_check.py --replay %s" % os.path.relpath(rp, ROOT)},
                       open(rp, "w"), indent=1)
